@@ -147,6 +147,29 @@ def discover(obj, extra_skip=()):
     return out
 
 
+def geo_calls(obj, prefix=""):
+    """(label, thunk) for the geographic queries of a SpatialNetwork / GeoNetwork that take arguments, and for
+    what its grid reports (coordinates, both distance matrices): the EUCLIDEAN and the spherical variants."""
+    calls = []
+    if not hasattr(obj, "grid") or not hasattr(obj, "link_distance_distribution"):
+        return calls
+    g = obj.grid
+    calls.append((prefix + "link_distance_distribution(4)~list", lambda: obj.link_distance_distribution(4)))
+    if hasattr(g, "angular_distance"):
+        calls.append((prefix + "link_distance_distribution(4,spherical)~list",
+                      lambda: obj.link_distance_distribution(4, "spherical")))
+        calls.append((prefix + "grid.angular_distance", g.angular_distance))
+        calls.append((prefix + "grid.lat_sequence", g.lat_sequence))
+        calls.append((prefix + "grid.lon_sequence", g.lon_sequence))
+        calls.append((prefix + "grid.cos_lat", g.cos_lat))
+    calls.append((prefix + "grid.euclidean_distance", g.euclidean_distance))
+    for nm in ("average_link_distance", "total_link_distance", "inaverage_link_distance", "outaverage_link_distance"):
+        if hasattr(obj, nm):
+            calls.append((prefix + nm + "(True)", lambda nm=nm: getattr(obj, nm)(True)))
+    calls.append((prefix + "grid.sequence(0)", lambda: g.sequence(0)))
+    return calls
+
+
 def classify(obj_n, label, val, o):
     """Put an encoded value into o['s'|'v'|'m'|'g'] by shape."""
     if hasattr(val, "toarray"):
